@@ -638,15 +638,24 @@ func (e *ssaEval) instr(fr *frame, ins ssa.Instruction) {
 		}
 	case *ssa.Lookup:
 		a, i := e.val(fr, x.X), e.val(fr, x.Index)
+		looked := false
 		if a.k == svString && i.k == svInt && i.i >= 0 && i.i < int64(len(a.s)) {
 			set(x, intV(int64(a.s[i.i])))
+			looked = true
 		} else if r, ok := e.modelLookup(x, a, i); ok {
 			set(x, r)
+			looked = true
 		} else if e.call != nil {
 			if r, ok := e.call(nil, []sv{symV("lookup"), a, i}); ok {
 				if !x.CommaOk && r.k == svTuple && len(r.tup) > 0 {
 					r = r.tup[0]
 				}
+				set(x, r)
+				looked = true
+			}
+		}
+		if !looked {
+			if r, ok := e.roLookup(x, i); ok { // a read-only table with constant entries (ext_x3.go)
 				set(x, r)
 			}
 		}
